@@ -120,3 +120,52 @@ def find_calls(fn, pred):
 
 def names_in(node):
     return {n.id for n in ast.walk(node) if isinstance(n, ast.Name)}
+
+
+def loop_fills(fn):
+    """summaries of loops that fill arrays row by row:  for v in range(..): [t = E(v) ...] A[v] = F(v, t ...)
+    returns {array name: [(start text, stop text, value text)]} with the loop variable renamed to _i, loop-local temporaries
+    resolved sequentially (a temporary may be re-bound between two stores) and single-assignment locals of the function inlined"""
+    from .srcmodel import clone
+    singles = single_assignments(fn)
+    out = {}
+    for lp in own_nodes(fn):
+        if not (isinstance(lp, ast.For) and isinstance(lp.target, ast.Name) and isinstance(lp.iter, ast.Call) and isinstance(lp.iter.func, ast.Name)
+                and lp.iter.func.id == 'range' and 1 <= len(lp.iter.args) <= 2 and not lp.orelse):
+            continue
+        v = lp.target.id
+        rng = [ast.unparse(inline(a, singles)) for a in lp.iter.args]
+        start, stop = ('0', rng[0]) if len(rng) == 1 else rng
+        env = {}
+
+        def res(e):
+            class T(ast.NodeTransformer):
+                def visit_Name(self, n):
+                    if isinstance(n.ctx, ast.Load):
+                        if n.id in env:
+                            return clone(env[n.id])
+                        if n.id == v:
+                            return ast.Name(id='_i', ctx=ast.Load())
+                        if n.id in singles and not _bound_in(lp, n.id):
+                            return res(singles[n.id])
+                    return n
+            return T().visit(clone(e))
+        ok = True
+        stores = []
+        for st in lp.body:
+            if isinstance(st, ast.Assign) and len(st.targets) == 1 and isinstance(st.targets[0], ast.Name):
+                env[st.targets[0].id] = res(st.value)
+            elif isinstance(st, ast.Assign) and len(st.targets) == 1 and isinstance(st.targets[0], ast.Subscript) and isinstance(st.targets[0].value, ast.Name) \
+                    and isinstance(st.targets[0].slice, ast.Name) and st.targets[0].slice.id == v:
+                stores.append((st.targets[0].value.id, ast.unparse(res(st.value))))
+            else:
+                ok = False
+                break
+        if ok:
+            for a, val in stores:
+                out.setdefault(a, []).append((start, stop, val))
+    return out
+
+
+def _bound_in(node, name):
+    return any(isinstance(n, ast.Name) and n.id == name and isinstance(n.ctx, (ast.Store, ast.Del)) for n in ast.walk(node))
